@@ -193,7 +193,15 @@ pub fn strategy(ctx: &Ctx) -> BoxedStrategy<Case> {
             // always at least one layer group at top level, possibly under a clip
             let inner = tree(&ctx, &d);
             let group = (alpha_f(), blend_biased(), inner).prop_map(|(o, b, k)| Node::Layer(Fl(o), b, k));
-            let clipped_group = (clip_push(&dd), group.clone()).prop_map(|(c, g)| Node::Clip(c, vec![g]));
+            // (one clip in eight is a rectangle with no area on the surface although it is not empty itself: beside,
+            // above or below the surface in one axis, overlapping it in the other; the layer under it is empty)
+            let beside = (0i32..4, 1i32..=6, 1i32..=6, -2i32..=4).prop_map(move |(side, d, l, o)| match side {
+                0 => Op::PushClipRect(w + d, o, w + d + l, o + l),
+                1 => Op::PushClipRect(-d - l, o, -d, o + l),
+                2 => Op::PushClipRect(o, h + d, o + l, h + d + l),
+                _ => Op::PushClipRect(o, -d - l, o + l, -d),
+            });
+            let clipped_group = (prop_oneof![7 => clip_push(&dd), 1 => beside.boxed()], group.clone()).prop_map(|(c, g)| Node::Clip(c, vec![g]));
             let pre = prop::collection::vec(draw_op(&ctx2, &dd).prop_map(Node::Op), 0..=1);
             (Just((w, h)), init_pixels(w, h), pre, prop_oneof![1 => group.boxed(), 1 => clipped_group.boxed()], tree(&ctx2, &dd), prop::option::weighted(0.1, xf_singular()))
         })
@@ -482,6 +490,6 @@ pub fn property(ctx: &Ctx) -> Property {
             ("interleaved", "second-draw-reaches-beyond-the-layer", 0.15),
             ("interleaved", "clip-pushed-inside-the-layer-and-popped-after-it", 0.2),
         ],
-        panic_is_violation: false,
+        panic_is_violation: true,
     }
 }
